@@ -247,8 +247,11 @@ func init() {
 		return IfaceV{}
 	})
 	reg(T+"GetConsAddress", func(ex *Exec, a []Val) Val {
-		ex.unmodelled("sdk.GetConsAddress (pubkey hashing)")
-		return nil
+		iv := a[0].(IfaceV)
+		if iv.T == nil {
+			ex.goPanic("nil pointer dereference (GetConsAddress of a nil key)")
+		}
+		return ex.invokeByName(iv, "Address", nil)
 	})
 
 	// ---------- encoding/hex, hexutil ----------
